@@ -224,7 +224,9 @@ class NestedFrame(pd.DataFrame):
             self._update_inplace(new_df)
             return None
 
-        return super().__setitem__(key, value)
+        # a single component: a base column, under the name the path denotes (item access
+        # strips the backticks that protect a name containing the delimiter, so must assignment)
+        return super().__setitem__(components[0], value)
 
     def add_nested(
         self,
